@@ -53,7 +53,14 @@ fn main() {
         let b = boundaries(&mp);
         if !(0 <= b[0] && b[0] <= b[1] && b[1] <= b[2]) { continue; } // C06 reports this
         let dp = c.end.position as f64 - c.start.position as f64;
-        let sign = if c.end.position < c.start.position { -1.0f32 } else { 1.0f32 };
+        let mut sign = if c.end.position < c.start.position { -1.0f32 } else { 1.0f32 };
+        if dp == 0.0 {
+            // "the sign of the displacement" is undefined for a zero displacement: either direction is a legitimate
+            // tie-break, so take the one the profile itself shows and check everything else against it
+            let probe = if b[0] > 0 { mp.get_acceleration(Time(0)).map(|q| q.value) } else if b[2] > b[1] { mp.get_acceleration(Time(b[1])).map(|q| -q.value) } else { None };
+            if let Some(x) = probe { if x < 0.0 { sign = -1.0; } else if x > 0.0 { sign = 1.0; } }
+            rep.tally("zero_displacement_profiles");
+        }
         let a32 = c.max_acc.abs() * sign;
         let r = RefTraj { p0: c.start.position as f64, v0: c.start.velocity as f64, a: a32 as f64, t1: b[0] as f64 / 1e9, t2: b[1] as f64 / 1e9, t3: b[2] as f64 / 1e9 };
         let phases = ((b[0] > 0) as u8) | (((b[1] > b[0]) as u8) << 1) | (((b[2] > b[1]) as u8) << 2);
